@@ -669,3 +669,1086 @@ Proof.
     destruct (g_use (GU k, v)); reflexivity.
   - destruct H as (x & Hx). rewrite Hx. reflexivity.
 Qed.
+
+(* ------------------------------------------------------------------ *)
+(** * 6. Constant declarations: repeated visits of the rune-free fragment *)
+
+(** integer, string and boolean expressions (no rune literal: every node of a tree then has the
+    same kind, whatever type the pre-order hands down) *)
+Fixpoint fr1 (e : expr) : option ukind :=
+  match e with
+  | EInt _ | EIota => Some UInt
+  | EStr _ => Some UString
+  | EBool _ => Some UBool
+  | EParen a => fr1 a
+  | EUn UNot a => match fr1 a with Some UBool => Some UBool | _ => None end
+  | EUn _ a => match fr1 a with Some UInt => Some UInt | _ => None end
+  | EBin o a b =>
+      match fr1 a, fr1 b with
+      | Some UInt, Some UInt =>
+          match o with
+          | BAdd | BSub | BMul | BQuo | BRem | BAnd | BOr | BXor | BAndNot | BShl | BShr => Some UInt
+          | _ => None
+          end
+      | Some UString, Some UString => match o with BAdd => Some UString | _ => None end
+      | _, _ => None
+      end
+  | _ => None
+  end.
+
+Lemma fr1_fr e : forall k, fr1 e = Some k -> fr e = Some k.
+Proof.
+  induction e as [z|z|q|x|b| |n|a IHa|o a IHa|o a IHa b IHb|t a IHa|a IHa]; intros k Hk; cbn [fr1] in Hk; try discriminate; cbn [fr]; auto.
+  - destruct (fr1 a) as [ka|]; [|destruct o; discriminate].
+    rewrite (IHa ka eq_refl). destruct o, ka; try discriminate; assumption.
+  - destruct (fr1 a) as [ka|]; [|discriminate]. destruct (fr1 b) as [kb|]; [|destruct ka; discriminate].
+    rewrite (IHa ka eq_refl), (IHb kb eq_refl).
+    destruct ka, kb; try discriminate; destruct o; try discriminate; cbn; assumption.
+Qed.
+
+Lemma fr1_kinds e k : fr1 e = Some k -> k = UInt \/ k = UString \/ k = UBool.
+Proof.
+  revert k. induction e as [z|z|q|x|b| |n|a IHa|o a IHa|o a IHa b IHb|t a IHa|a IHa]; intros k Hk; cbn [fr1] in Hk; try discriminate;
+    try (injection Hk as <-; auto; fail); auto.
+  - destruct (fr1 a) as [ka|]; [|destruct o; discriminate]. destruct o, ka; try discriminate; injection Hk as <-; auto.
+  - destruct (fr1 a) as [[]|]; try discriminate; destruct (fr1 b) as [[]|]; try discriminate; destruct o; try discriminate; injection Hk as <-; auto.
+Qed.
+
+(** no identifier is looked up: the environment is irrelevant *)
+Lemma g_eval_env e : forall k, fr1 e = Some k -> forall env iota, g_eval env iota e = g_eval [] iota e.
+Proof.
+  induction e as [z|z|q|x|b| |n|a IHa|o a IHa|o a IHa b IHb|t a IHa|a IHa]; intros k Hk env iota; cbn [fr1] in Hk; try discriminate; cbn [g_eval]; auto.
+  - now rewrite (IHa k Hk).
+  - destruct (fr1 a) as [ka|] eqn:Ha; [|destruct o; discriminate]. now rewrite (IHa ka eq_refl).
+  - destruct (fr1 a) as [ka|] eqn:Ha; [|discriminate]. destruct (fr1 b) as [kb|] eqn:Hb; [|destruct ka; discriminate].
+    now rewrite (IHa ka eq_refl), (IHb kb eq_refl).
+Qed.
+
+Definition mkd (t : ytyp) (v : yval) (r : bool) : deco := {| dty := Some t; dva := Some v; dres := r |}.
+Definition cnt_deco (n : Z) (r : bool) : deco := mkd (typed TUint) (VM TUint (MI n)) r.
+
+(** decoration of a node that was visited: its type is the kind of the tree, its value the value of
+    the subexpression; an identifier leaf is resolved *)
+Definition good (k : ukind) (v : gval) (leaf : bool) (d : deco) : Prop :=
+  dty d = Some (y_typ_of k) /\ dva d = Some (y_val_of v) /\ (leaf = true -> dres d = true).
+
+(** the count of a shift was converted to uint by check.shift *)
+Definition dconv (iota : Z) (e : expr) (leaf : bool) (d : deco) : Prop :=
+  exists n r, g_eval [] iota e = Some (GU UInt, GI n) /\ in_range TUint n = true /\ d = cnt_deco n r /\ (leaf = true -> r = true).
+
+(** [cnt]: the node is the count of a shift; [full]: every node was visited *)
+Definition dinv (cnt full : bool) (k : ukind) (iota : Z) (e : expr) (leaf : bool) (d : deco) : Prop :=
+  (full = false /\ d = deco0)
+  \/ (exists v, g_eval [] iota e = Some (GU k, v) /\ good k v leaf d)
+  \/ (cnt = true /\ dconv iota e leaf d).
+
+Fixpoint tinv (cnt full : bool) (k : ukind) (iota : Z) (x : dx) (e : expr) {struct x} : Prop :=
+  match x, e with
+  | DLeaf (LInt z) d, EInt z' => z = z' /\ dinv cnt full k iota e true d
+  | DLeaf (LStr s) d, EStr s' => s = s' /\ dinv cnt full k iota e true d
+  | DLeaf (LBool b) d, EBool b' => b = b' /\ dinv cnt full k iota e true d
+  | DLeaf LIota d, EIota => dinv cnt full k iota e true d
+  | DParen c d, EParen a => tinv false full k iota c a /\ dinv cnt full k iota e false d
+  | DUn o c d, EUn o' a => o = o' /\ tinv false full k iota c a /\ dinv cnt full k iota e false d
+  | DBin o a b d, EBin o' ea eb =>
+      o = o' /\ tinv false full k iota a ea /\ tinv (is_shift o) full k iota b eb /\ dinv cnt full k iota e false d
+  | _, _ => False
+  end.
+
+Definition is_leafx (x : dx) : bool := match x with DLeaf _ _ => true | _ => false end.
+
+Lemma dinv_weaken cnt k iota e leaf d : dinv cnt true k iota e leaf d -> dinv cnt false k iota e leaf d.
+Proof. intros [[H _]|[H|H]]; [discriminate|right; left; exact H|right; right; exact H]. Qed.
+
+Lemma tinv_weaken k iota x : forall cnt e, tinv cnt true k iota x e -> tinv cnt false k iota x e.
+Proof.
+  induction x as [l d|c IHc d|o c IHc d|o a IHa b IHb d|t c IHc d|c IHc d]; intros cnt e H.
+  - destruct l, e; cbn [tinv] in *; try contradiction; try (destruct H; split; auto using dinv_weaken); auto using dinv_weaken.
+  - destruct e; cbn [tinv] in *; try contradiction. destruct H; split; auto using dinv_weaken.
+  - destruct e; cbn [tinv] in *; try contradiction. destruct H as (? & ? & ?); repeat split; auto using dinv_weaken.
+  - destruct e; cbn [tinv] in *; try contradiction. destruct H as (? & ? & ? & ?); repeat split; auto using dinv_weaken.
+  - destruct e; cbn [tinv] in *; contradiction.
+  - destruct e; cbn [tinv] in *; contradiction.
+Qed.
+
+Lemma tinv_init k iota e : forall cnt k', fr1 e = Some k' -> tinv cnt false k iota (init e) e.
+Proof.
+  induction e as [z|z|q|x|b| |n|a IHa|o a IHa|o a IHa b IHb|t a IHa|a IHa]; intros cnt k' Hk; cbn [fr1] in Hk; try discriminate; cbn [init tinv].
+  all: try (repeat split; left; split; reflexivity).
+  - split; [eapply IHa; eassumption|left; split; reflexivity].
+  - destruct (fr1 a) as [ka|] eqn:Ha; [|destruct o; discriminate].
+    repeat split; [eapply IHa; reflexivity|left; split; reflexivity].
+  - destruct (fr1 a) as [ka|] eqn:Ha; [|discriminate]. destruct (fr1 b) as [kb|] eqn:Hb; [|destruct ka; discriminate].
+    repeat split; [eapply IHa; reflexivity|eapply IHb; reflexivity|left; split; reflexivity].
+Qed.
+
+(** the root decoration of a tree *)
+Lemma tinv_deco cnt full k iota x e : tinv cnt full k iota x e -> dinv cnt full k iota e (is_leafx x) (deco_of x).
+Proof.
+  destruct x as [l d|c d|o c d|o a b d|t c d|c d]; cbn [tinv deco_of is_leafx]; intros H.
+  - destruct l, e; try contradiction; try (destruct H as [_ H]); exact H.
+  - destruct e; try contradiction. destruct H; assumption.
+  - destruct e; try contradiction. destruct H as (_ & _ & H); assumption.
+  - destruct e; try contradiction. destruct H as (_ & _ & _ & H); assumption.
+  - destruct e; contradiction.
+  - destruct e; contradiction.
+Qed.
+
+(** replacing the root decoration *)
+Lemma tinv_with_deco cnt full k iota x e d' :
+  tinv cnt full k iota x e -> dinv cnt full k iota e (is_leafx x) d' -> tinv cnt full k iota (with_deco x d') e.
+Proof.
+  destruct x as [l d|c d|o c d|o a b d|t c d|c d]; cbn [tinv with_deco is_leafx]; intros H Hd.
+  - destruct l, e; try contradiction; try (destruct H as [H1 _]; split; assumption); exact Hd.
+  - destruct e; try contradiction. destruct H; split; assumption.
+  - destruct e; try contradiction. destruct H as (? & ? & _); repeat split; assumption.
+  - destruct e; try contradiction. destruct H as (? & ? & ? & _); repeat split; assumption.
+  - destruct e; contradiction.
+  - destruct e; contradiction.
+Qed.
+
+Lemma deco_eta d t v : dty d = Some t -> dva d = Some v -> d = mkd t v (dres d).
+Proof. destruct d as [a b c]; cbn; intros -> ->; reflexivity. Qed.
+
+(** the root of a fully decorated tree that is not a shift count *)
+Lemma tinv_root k iota x e :
+  tinv false true k iota x e ->
+  exists v, g_eval [] iota e = Some (GU k, v) /\ deco_of x = mkd (y_typ_of k) (y_val_of v) (dres (deco_of x))
+            /\ (is_leafx x = true -> dres (deco_of x) = true).
+Proof.
+  intros H. apply tinv_deco in H. destruct H as [[H _]|[(v & Hg & Ht & Hv & Hr)|[H _]]]; try discriminate.
+  exists v. split; [exact Hg|]. split; [apply deco_eta; assumption|exact Hr].
+Qed.
+
+(** types the pre-order may hand to a node of kind k *)
+Definition pr_ok (k : ukind) (pr : prop) : Prop :=
+  pr = PKeep \/ pr = PSet None \/ pr = PDest None \/ pr = PSet (Some (y_typ_of k)) \/ pr = PDest (Some (y_typ_of k)).
+
+Definition typ_ok (k : ukind) (t : option ytyp) : Prop := t = None \/ t = Some (y_typ_of k).
+
+(** at a count position the parent is a binaryExpr: the type comes from it *)
+Definition pr_pos (cnt : bool) (k : ukind) (pr : prop) : Prop :=
+  if cnt then exists t, pr = PSet t /\ typ_ok k t else pr_ok k pr.
+
+Lemma pre_typ_ok cnt full k iota e leaf pr d :
+  pr_pos cnt k pr -> dinv cnt full k iota e leaf d -> typ_ok k (pre_typ pr false d).
+Proof.
+  intros Hpr Hd. unfold pre_typ, typ_ok.
+  destruct cnt; cbn [pr_pos] in Hpr.
+  - destruct Hpr as (t & -> & Ht). exact Ht.
+  - assert (Hdt : dty d = None \/ dty d = Some (y_typ_of k)).
+    { destruct Hd as [[_ ->]|[(v & _ & Ht & _)|[Hc _]]]; [left; reflexivity|right; exact Ht|discriminate]. }
+    destruct Hpr as [->|[->|[->|[->| ->]]]]; auto.
+Qed.
+
+Lemma pr_ok_set k t : typ_ok k t -> pr_ok k (PSet t).
+Proof. intros [->| ->]; unfold pr_ok; auto. Qed.
+
+Lemma pr_pos_set cnt k t : typ_ok k t -> pr_pos cnt k (PSet t).
+Proof. intros H. destruct cnt; cbn; [eauto|apply pr_ok_set; assumption]. Qed.
+
+(* ------------------------------------------------------------------ *)
+(** ** explicit results of the node functions on visited operands *)
+
+Lemma with_deco_id x : with_deco x (deco_of x) = x.
+Proof. destruct x; reflexivity. Qed.
+
+Lemma deco_of_with x d : deco_of (with_deco x d) = d.
+Proof. destruct x; reflexivity. Qed.
+
+Lemma in_range_uint z : in_range TUint z = (0 <=? z) && (z <? 2 ^ 64).
+Proof.
+  unfold in_range, imin, imax. cbn [is_signed bits]. rewrite pow2_64.
+  destruct (Z.leb_spec 0 z), (Z.leb_spec z (18446744073709551616 - 1)), (Z.ltb_spec z 18446744073709551616); try reflexivity; lia.
+Qed.
+
+Ltac normd := unfold set_typ, set_val, mkd, cnt_deco in *; cbn [dty dva dres] in *.
+
+(** binaryExpr on two visited integer operands *)
+Lemma y_binary_int1 o a b d za zb ra rb :
+  deco_of a = mkd u_int (VC (CInt za)) ra -> deco_of b = mkd u_int (VC (CInt zb)) rb ->
+  (dty d = None \/ dty d = Some u_int) ->
+  let res v := Ok (DBin o a b (mkd u_int (VC (CInt v)) false)) in
+  (int_arith o = true -> y_binary o a b d = res (int_val o za zb))
+  /\ (o = BRem \/ o = BQuo -> y_binary o a b d = if zb =? 0 then Err else res (int_val o za zb))
+  /\ (o = BShl \/ o = BShr ->
+      y_binary o a b d =
+      if in_range TUint zb
+      then Ok (DBin o a (with_deco b (cnt_deco zb rb)) (mkd u_int (VC (CInt (int_val o za zb))) false))
+      else Err).
+Proof.
+  intros Ha Hb Hd res.
+  unfold mkd, cnt_deco in *. unfold y_binary, typ_of. rewrite Ha, Hb. cbn [dty dva dres bind].
+  assert (Ea : with_deco a {| dty := Some u_int; dva := Some (VC (CInt za)); dres := ra |} = a)
+    by (rewrite <- (with_deco_id a) at 2; rewrite Ha; reflexivity).
+  assert (Eb : with_deco b {| dty := Some u_int; dva := Some (VC (CInt zb)); dres := rb |} = b)
+    by (rewrite <- (with_deco_id b) at 2; rewrite Hb; reflexivity).
+  repeat split.
+  - intros Ho. destruct Hd as [Hd|Hd]; rewrite Hd; destruct o; try discriminate Ho; cbn; normd; rewrite Ea, Eb; reflexivity.
+  - intros Ho. destruct Hd as [Hd|Hd]; rewrite Hd; destruct Ho; subst o; cbn [is_logic is_shift is_cmp];
+      cbn [zero_const dty dva u_int yu yb negb c_sign bind]; rewrite sgn_eqb0; destruct (zb =? 0) eqn:Ez; cbn; try reflexivity;
+      rewrite ?Ez; cbn; normd; rewrite ?Ea, ?Eb; reflexivity.
+  - intros Ho.
+    assert (Hsh : is_shift o = true) by (destruct Ho; subst; reflexivity).
+    assert (Hlg : is_logic o = false) by (destruct Ho; subst; reflexivity).
+    rewrite Hlg, Hsh.
+    assert (Hr : y_representable (CInt zb) TUint = Ok ((0 <=? zb) && (zb <? 2 ^ 64))) by (now rewrite y_representable_int).
+    rewrite in_range_uint.
+    destruct ((0 <=? zb) && (zb <? 2 ^ 64)) eqn:Hz.
+    + apply andb_true_iff in Hz as [H0 H1]. apply Z.leb_le in H0. apply Z.ltb_lt in H1.
+      assert (Hw := wrap_uint_id zb (conj H0 H1)).
+      destruct Hd as [Hd|Hd]; rewrite Hd; destruct Ho; subst o;
+        cbn -[y_representable convert_const Z.shiftl Z.shiftr wrap_to uint64_of];
+        rewrite Hr; cbn -[Z.shiftl Z.shiftr wrap_to uint64_of]; normd; unfold set_int; rewrite Hw, Ea; reflexivity.
+    + destruct Hd as [Hd|Hd]; rewrite Hd; destruct Ho; subst o;
+        cbn -[y_representable convert_const]; rewrite Hr; reflexivity.
+Qed.
+
+(** a shift whose count was converted to uint by an earlier visit *)
+Lemma y_binary_shift_cnt o a b d za zb ra rb :
+  deco_of a = mkd u_int (VC (CInt za)) ra -> deco_of b = cnt_deco zb rb ->
+  (dty d = None \/ dty d = Some u_int) -> in_range TUint zb = true ->
+  o = BShl \/ o = BShr ->
+  y_binary o a b d = Ok (DBin o a b (mkd u_int (VC (CInt (int_val o za zb))) false)).
+Proof.
+  intros Ha Hb Hd Hz Ho.
+  unfold mkd, cnt_deco in *. unfold y_binary, typ_of. rewrite Ha, Hb. cbn [dty dva dres bind].
+  assert (Ea : with_deco a {| dty := Some u_int; dva := Some (VC (CInt za)); dres := ra |} = a)
+    by (rewrite <- (with_deco_id a) at 2; rewrite Ha; reflexivity).
+  assert (Eb : with_deco b {| dty := Some (typed TUint); dva := Some (VM TUint (MI zb)); dres := rb |} = b)
+    by (rewrite <- (with_deco_id b) at 2; rewrite Hb; reflexivity).
+  destruct Hd as [Hd|Hd]; rewrite Hd; destruct Ho; subst o; cbn -[Z.shiftl Z.shiftr]; normd; rewrite Ea, Eb; reflexivity.
+Qed.
+
+Lemma y_binary_str1 a b d xa xb ra rb :
+  deco_of a = mkd u_string (VC (CStr xa)) ra -> deco_of b = mkd u_string (VC (CStr xb)) rb ->
+  (dty d = None \/ dty d = Some u_string) ->
+  y_binary BAdd a b d = Ok (DBin BAdd a b (mkd u_string (VC (CStr (xa ++ xb))) false)).
+Proof.
+  intros Ha Hb Hd.
+  unfold mkd, cnt_deco in *. unfold y_binary, typ_of. rewrite Ha, Hb. cbn [dty dva dres bind].
+  assert (Ea : with_deco a {| dty := Some u_string; dva := Some (VC (CStr xa)); dres := ra |} = a)
+    by (rewrite <- (with_deco_id a) at 2; rewrite Ha; reflexivity).
+  assert (Eb : with_deco b {| dty := Some u_string; dva := Some (VC (CStr xb)); dres := rb |} = b)
+    by (rewrite <- (with_deco_id b) at 2; rewrite Hb; reflexivity).
+  destruct Hd as [Hd|Hd]; rewrite Hd; cbn; normd; rewrite Ea, Eb; reflexivity.
+Qed.
+
+Lemma y_unary_int1 o c d z r :
+  o <> UNot -> deco_of c = mkd u_int (VC (CInt z)) r ->
+  y_unary o c d = Ok (DUn o c (mkd u_int (VC (CInt (un_val o z))) false)).
+Proof.
+  intros Ho Hc. unfold mkd in *. unfold y_unary, typ_of. rewrite Hc. cbn [dty dva bind].
+  destruct o; try congruence; reflexivity.
+Qed.
+
+Lemma y_unary_bool1 c d b r :
+  deco_of c = mkd u_bool (VM TBool (MB b)) r ->
+  y_unary UNot c d = Ok (DUn UNot c (mkd u_bool (VM TBool (MB (negb b))) false)).
+Proof. intros Hc. unfold mkd in *. unfold y_unary, typ_of. rewrite Hc. reflexivity. Qed.
+
+(* ------------------------------------------------------------------ *)
+(** ** G on the fragment: inversion *)
+
+Lemma fr1_eval e k iota gk v : fr1 e = Some k -> g_eval [] iota e = Some (gk, v) -> gk = GU k /\ wf_untyped k v.
+Proof. intros H. apply fr_kind. now apply fr1_fr. Qed.
+
+Lemma g_bin_int_inv o a b iota v :
+  fr1 a = Some UInt -> fr1 b = Some UInt -> fr1 (EBin o a b) = Some UInt ->
+  g_eval [] iota (EBin o a b) = Some (GU UInt, v) ->
+  exists za zb, g_eval [] iota a = Some (GU UInt, GI za) /\ g_eval [] iota b = Some (GU UInt, GI zb)
+    /\ v = GI (int_val o za zb)
+    /\ (o = BRem \/ o = BQuo -> (zb =? 0) = false)
+    /\ (o = BShl \/ o = BShr -> in_range TUint zb = true).
+Proof.
+  intros Ha Hb Hab Hg. cbn [g_eval] in Hg.
+  destruct (g_eval [] iota a) as [[gka va]|] eqn:Ea; [|discriminate].
+  destruct (g_eval [] iota b) as [[gkb vb]|] eqn:Eb; [|discriminate].
+  destruct (fr1_eval a UInt iota gka va Ha Ea) as [-> Hwa].
+  destruct (fr1_eval b UInt iota gkb vb Hb Eb) as [-> Hwb].
+  destruct (wf_int UInt va eq_refl Hwa) as [za ->]. destruct (wf_int UInt vb eq_refl Hwb) as [zb ->].
+  exists za, zb. split; [reflexivity|]. split; [reflexivity|].
+  rewrite (g_binary_int o UInt UInt za zb eq_refl eq_refl) in Hg.
+  cbn [fr1] in Hab. rewrite Ha, Hb in Hab.
+  destruct o; try discriminate Hab; cbn [umax urank Z.ltb Z.compare] in Hg.
+  all: try (injection Hg as <-; repeat split; try reflexivity; intros [H|H]; discriminate H).
+  - (* Quo *) destruct (zb =? 0) eqn:Ez; [discriminate|]. injection Hg as <-.
+    repeat split; try reflexivity; intros [H|H]; try discriminate H; reflexivity.
+  - (* Rem *) destruct (zb =? 0) eqn:Ez; [discriminate|]. injection Hg as <-.
+    repeat split; try reflexivity; intros [H|H]; try discriminate H; reflexivity.
+  - (* Shl *) destruct (in_range TUint zb) eqn:Ez; [|discriminate]. injection Hg as <-.
+    repeat split; try reflexivity; intros [H|H]; try discriminate H; reflexivity.
+  - (* Shr *) destruct (in_range TUint zb) eqn:Ez; [|discriminate]. injection Hg as <-.
+    repeat split; try reflexivity; intros [H|H]; try discriminate H; reflexivity.
+Qed.
+
+Lemma g_bin_str_inv a b iota v :
+  fr1 a = Some UString -> fr1 b = Some UString ->
+  g_eval [] iota (EBin BAdd a b) = Some (GU UString, v) ->
+  exists xa xb, g_eval [] iota a = Some (GU UString, GS xa) /\ g_eval [] iota b = Some (GU UString, GS xb) /\ v = GS (xa ++ xb).
+Proof.
+  intros Ha Hb Hg. cbn [g_eval] in Hg.
+  destruct (g_eval [] iota a) as [[gka va]|] eqn:Ea; [|discriminate].
+  destruct (g_eval [] iota b) as [[gkb vb]|] eqn:Eb; [|discriminate].
+  destruct (fr1_eval a UString iota gka va Ha Ea) as [-> Hwa].
+  destruct (fr1_eval b UString iota gkb vb Hb Eb) as [-> Hwb].
+  destruct (wf_str va Hwa) as [xa ->]. destruct (wf_str vb Hwb) as [xb ->].
+  exists xa, xb. cbn in Hg. injection Hg as <-. auto.
+Qed.
+
+Lemma g_un_int_inv o a iota v :
+  fr1 a = Some UInt -> o <> UNot ->
+  g_eval [] iota (EUn o a) = Some (GU UInt, v) ->
+  exists z, g_eval [] iota a = Some (GU UInt, GI z) /\ v = GI (un_val o z).
+Proof.
+  intros Ha Ho Hg. cbn [g_eval] in Hg.
+  destruct (g_eval [] iota a) as [[gka va]|] eqn:Ea; [|discriminate].
+  destruct (fr1_eval a UInt iota gka va Ha Ea) as [-> Hwa].
+  destruct (wf_int UInt va eq_refl Hwa) as [z ->]. exists z. split; [reflexivity|].
+  destruct o; try congruence; cbn in Hg; injection Hg as <-; reflexivity.
+Qed.
+
+Lemma g_un_bool_inv a iota v :
+  fr1 a = Some UBool ->
+  g_eval [] iota (EUn UNot a) = Some (GU UBool, v) ->
+  exists b, g_eval [] iota a = Some (GU UBool, GB b) /\ v = GB (negb b).
+Proof.
+  intros Ha Hg. cbn [g_eval] in Hg.
+  destruct (g_eval [] iota a) as [[gka va]|] eqn:Ea; [|discriminate].
+  destruct (fr1_eval a UBool iota gka va Ha Ea) as [-> Hwa].
+  destruct (wf_bool va Hwa) as [b ->]. exists b. cbn in Hg. injection Hg as <-. auto.
+Qed.
+
+(* ------------------------------------------------------------------ *)
+(** ** a visit of a tree of the fragment (fresh, partly or fully visited) leaves it fully visited,
+       every node carrying the kind of the tree and the value of its subexpression *)
+
+Lemma good_dinv cnt k iota e leaf v r :
+  g_eval [] iota e = Some (GU k, v) -> (leaf = true -> r = true) ->
+  dinv cnt true k iota e leaf (mkd (y_typ_of k) (y_val_of v) r).
+Proof. intros Hg Hr. right; left. exists v. split; [exact Hg|]. repeat split; assumption. Qed.
+
+Lemma some_inj {A} (a b : A) : Some a = Some b -> a = b.
+Proof. congruence. Qed.
+
+Lemma pass_inv e : forall k, fr1 e = Some k -> forall iota v, g_eval [] iota e = Some (GU k, v) ->
+  forall cnt full cx pr x, tinv cnt full k iota x e -> (full = false -> cx_iota cx = iota) -> pr_pos cnt k pr ->
+  exists x', y_pass cx pr x = (x', Ok tt) /\ tinv cnt true k iota x' e.
+Proof.
+  induction e as [z|z|q|s0|b0| |n|a IHa|o a IHa|o a IHa b IHb|t0 a IHa|a IHa]; intros k Hk iota v Hg cnt full cx pr x Hx Hfull Hpr;
+    cbn [fr1] in Hk; try discriminate.
+  - (* EInt *)
+    injection Hk as <-. destruct x as [l d| | | | | ]; try contradiction. destruct l; try contradiction.
+    cbn [tinv] in Hx. destruct Hx as [<- Hd]. cbn [y_pass y_leaf fin].
+    eexists; split; [reflexivity|]. cbn [tinv]. split; [reflexivity|].
+    destruct Hd as [[_ ->]|[(v' & Hg' & Ht & Hv & Hr)|(Hc & Hconv)]].
+    + cbn. refine (good_dinv cnt UInt iota _ true (GI _) true _ _); [reflexivity|auto].
+    + rewrite Ht. right; left. exists v'. repeat split; assumption.
+    + destruct Hconv as (n0 & r & Hg' & Hin & -> & Hr). cbn. right; right. split; [exact Hc|]. exists n0, r. auto.
+  - (* EStr *)
+    injection Hk as <-. destruct x as [l d| | | | | ]; try contradiction. destruct l; try contradiction.
+    cbn [tinv] in Hx. destruct Hx as [<- Hd]. cbn [y_pass y_leaf fin].
+    eexists; split; [reflexivity|]. cbn [tinv]. split; [reflexivity|].
+    destruct Hd as [[_ ->]|[(v' & Hg' & Ht & Hv & Hr)|(Hc & Hconv)]].
+    + cbn. refine (good_dinv cnt UString iota _ true (GS _) true _ _); [reflexivity|auto].
+    + rewrite Ht. right; left. exists v'. repeat split; assumption.
+    + destruct Hconv as (n0 & r & Hg' & _). cbn in Hg'. discriminate.
+  - (* EBool *)
+    injection Hk as <-. destruct x as [l d| | | | | ]; try contradiction. destruct l; try contradiction.
+    cbn [tinv] in Hx. destruct Hx as [<- Hd]. cbn [y_pass y_leaf fin].
+    eexists; split; [reflexivity|]. cbn [tinv]. split; [reflexivity|].
+    destruct Hd as [[_ ->]|[(v' & Hg' & Ht & Hv & Hr)|(Hc & Hconv)]].
+    + cbn. refine (good_dinv cnt UBool iota _ true (GB _) true _ _); [reflexivity|auto].
+    + rewrite (Hr eq_refl). right; left. exists v'. repeat split; assumption.
+    + destruct Hconv as (n0 & r & Hg' & _). cbn in Hg'. discriminate.
+  - (* EIota *)
+    injection Hk as <-. destruct x as [l d| | | | | ]; try contradiction. destruct l; try contradiction.
+    cbn [tinv] in Hx. cbn [y_pass y_leaf fin].
+    eexists; split; [reflexivity|]. cbn [tinv].
+    destruct Hx as [[Hf ->]|[(v' & Hg' & Ht & Hv & Hr)|(Hc & Hconv)]].
+    + cbn. rewrite (Hfull Hf). apply (good_dinv cnt UInt iota EIota true (GI iota) true); [reflexivity|auto].
+    + rewrite (Hr eq_refl). right; left. exists v'. repeat split; assumption.
+    + destruct Hconv as (n0 & r & Hg' & Hin & -> & Hr). cbn. rewrite (Hr eq_refl). cbn.
+      right; right. split; [exact Hc|]. exists n0, true. auto.
+  - (* EParen *)
+    destruct x as [l d|c d|o' c d|o' xa xb d|t' c d|c d]; try (destruct l); try contradiction. cbn [tinv] in Hx. destruct Hx as [Hc Hd].
+    cbn [y_pass]. cbn [g_eval] in Hg.
+    pose proof (pre_typ_ok cnt full k iota (EParen a) false pr d Hpr Hd) as Ht.
+    destruct (IHa k Hk iota v Hg false full cx (PSet (pre_typ pr false d)) c Hc Hfull (pr_ok_set k _ Ht)) as (c' & Hy & Hc').
+    rewrite Hy. eexists; split; [reflexivity|]. cbn [tinv]. split; [exact Hc'|].
+    destruct (tinv_root k iota c' a Hc') as (v' & Hg' & Hdeco & _).
+    rewrite Hg in Hg'. apply some_inj in Hg'. injection Hg' as <-.
+    rewrite Hdeco. cbn [mkd dty dva].
+    apply (good_dinv cnt k iota (EParen a) false v false); [exact Hg|discriminate].
+  - (* EUn *)
+    destruct x as [l d|c d|o' c d|o' xa xb d|t' c d|c d]; try (destruct l); try contradiction. cbn [tinv] in Hx. destruct Hx as (-> & Hc & Hd).
+    cbn [y_pass].
+    destruct (fr1 a) as [ka|] eqn:Hfa; [|destruct o; discriminate].
+    assert (Hka : ka = k /\ (o = UNot -> k = UBool) /\ (o <> UNot -> k = UInt)).
+    { destruct o, ka; try discriminate; injection Hk as <-; repeat split; try reflexivity; try congruence. }
+    destruct Hka as (-> & HkN & HkI).
+    assert (Ht : typ_ok k (pre_typ pr (is_not o) d)).
+    { destruct o; cbn [is_not]; try (apply (pre_typ_ok cnt full k iota _ false pr d Hpr Hd)).
+      unfold pre_typ, typ_ok.
+      destruct Hd as [[_ ->]|[(v' & _ & Hty & _)|(_ & n0 & r & Hg' & _)]]; [left; reflexivity|right; exact Hty|].
+      rewrite Hg in Hg'. rewrite (HkN eq_refl) in Hg'. discriminate. }
+    set (d1 := {| dty := pre_typ pr (is_not o) d; dva := dva d; dres := dres d |}).
+    destruct (Bool.bool_dec (is_not o) true) as [HN|HN].
+    + (* UNot *)
+      assert (o = UNot) as -> by (destruct o; try discriminate; reflexivity).
+      pose proof (HkN eq_refl) as ->.
+      destruct (g_un_bool_inv a iota v Hfa Hg) as (b1 & Hga & ->).
+      destruct (IHa UBool eq_refl iota (GB b1) Hga false full cx (PSet (pre_typ pr (is_not UNot) d)) c Hc Hfull (pr_ok_set _ _ Ht)) as (c' & Hy & Hc').
+      rewrite Hy.
+      destruct (tinv_root UBool iota c' a Hc') as (v' & Hg' & Hdeco & _).
+      rewrite Hga in Hg'. apply some_inj in Hg'. injection Hg' as <-.
+      rewrite (y_unary_bool1 c' d1 b1 _ Hdeco). cbn [fin].
+      eexists; split; [reflexivity|]. cbn [tinv]. repeat split; [exact Hc'|].
+      apply (good_dinv cnt UBool iota (EUn UNot a) false (GB (negb b1)) false); [exact Hg|discriminate].
+    + (* + - ^ *)
+      assert (Ho : o <> UNot) by (intros ->; apply HN; reflexivity).
+      pose proof (HkI Ho) as ->.
+      destruct (g_un_int_inv o a iota v Hfa Ho Hg) as (z1 & Hga & ->).
+      destruct (IHa UInt eq_refl iota (GI z1) Hga false full cx (PSet (pre_typ pr (is_not o) d)) c Hc Hfull (pr_ok_set _ _ Ht)) as (c' & Hy & Hc').
+      rewrite Hy.
+      destruct (tinv_root UInt iota c' a Hc') as (v' & Hg' & Hdeco & _).
+      rewrite Hga in Hg'. apply some_inj in Hg'. injection Hg' as <-.
+      rewrite (y_unary_int1 o c' d1 z1 _ Ho Hdeco). cbn [fin].
+      eexists; split; [reflexivity|]. cbn [tinv]. repeat split; [exact Hc'|].
+      apply (good_dinv cnt UInt iota (EUn o a) false (GI (un_val o z1)) false); [exact Hg|discriminate].
+  - (* EBin *)
+    destruct x as [l d|c d|o' c d|o' xa xb d|t' c d|c d]; try (destruct l); try contradiction. cbn [tinv] in Hx. destruct Hx as (-> & Hxa & Hxb & Hd).
+    destruct (fr1 a) as [ka|] eqn:Hfa; [|discriminate].
+    destruct (fr1 b) as [kb|] eqn:Hfb; [|destruct ka; discriminate].
+    assert (Hlg : is_logic o = false) by (destruct ka, kb; try discriminate; destruct o; try discriminate; reflexivity).
+    assert (Hcm : is_cmp o = false) by (destruct ka, kb; try discriminate; destruct o; try discriminate; reflexivity).
+    cbn [y_pass]. rewrite Hlg, Hcm.
+    pose proof (pre_typ_ok cnt full k iota (EBin o a b) false pr d Hpr Hd) as Ht.
+    set (t := pre_typ pr false d) in *.
+    set (d1 := {| dty := t; dva := dva d; dres := dres d |}).
+    destruct ka, kb; try discriminate.
+    + (* integers *)
+      assert (k = UInt) as -> by (destruct o; try discriminate; injection Hk as <-; reflexivity).
+      assert (Hab : fr1 (EBin o a b) = Some UInt) by (cbn [fr1]; rewrite Hfa, Hfb; exact Hk).
+      destruct (g_bin_int_inv o a b iota v Hfa Hfb Hab Hg) as (za & zb & Hga & Hgb & -> & Hz & Hin).
+      destruct (IHa UInt eq_refl iota (GI za) Hga false full cx (PSet t) xa Hxa Hfull (pr_ok_set _ _ Ht)) as (xa' & Hya & Hxa').
+      destruct (IHb UInt eq_refl iota (GI zb) Hgb (is_shift o) full cx (PSet t) xb Hxb Hfull (pr_pos_set _ _ _ Ht)) as (xb' & Hyb & Hxb').
+      rewrite Hya, Hyb.
+      destruct (tinv_root UInt iota xa' a Hxa') as (va' & Hga' & Hda & _).
+      rewrite Hga in Hga'. apply some_inj in Hga'. injection Hga' as <-.
+      assert (Hd1 : dty d1 = None \/ dty d1 = Some u_int) by exact Ht.
+      assert (Hgood : forall cnt', dinv cnt' true UInt iota (EBin o a b) false (mkd u_int (VC (CInt (int_val o za zb))) false)).
+      { intros cnt'. apply (good_dinv cnt' UInt iota (EBin o a b) false (GI (int_val o za zb)) false); [exact Hg|discriminate]. }
+      destruct (is_shift o) eqn:Hsh.
+      * (* shifts *)
+        assert (Ho : o = BShl \/ o = BShr) by (destruct o; try discriminate; auto).
+        pose proof (tinv_deco _ _ _ _ _ _ Hxb') as Hdb.
+        destruct Hdb as [[Hf _]|[(vb' & Hgb' & Htb & Hvb & Hrb)|(_ & n0 & r & Hgb' & Hin' & Hdb & Hr)]]; [discriminate| |].
+        -- rewrite Hgb in Hgb'. apply some_inj in Hgb'. injection Hgb' as <-.
+           pose proof (deco_eta _ _ _ Htb Hvb) as Hdb. cbn [y_typ_of y_val_of] in Hdb.
+           destruct (y_binary_int1 o xa' xb' d1 za zb _ _ Hda Hdb Hd1) as (_ & _ & HS).
+           rewrite (HS Ho), (Hin Ho). cbn [fin].
+           eexists; split; [reflexivity|]. cbn [tinv]. rewrite Hsh. repeat split; [exact Hxa'| |apply Hgood].
+           apply tinv_with_deco; [exact Hxb'|].
+           right; right. split; [reflexivity|]. exists zb, (dres (deco_of xb')). repeat split; auto.
+        -- rewrite Hgb in Hgb'. apply some_inj in Hgb'. injection Hgb' as <-.
+           rewrite (y_binary_shift_cnt o xa' xb' d1 za zb _ r Hda Hdb Hd1 Hin' Ho). cbn [fin].
+           eexists; split; [reflexivity|]. cbn [tinv]. rewrite Hsh. repeat split; [exact Hxa'|exact Hxb'|apply Hgood].
+      * (* arithmetic *)
+        destruct (tinv_root UInt iota xb' b Hxb') as (vb' & Hgb' & Hdb & _).
+        rewrite Hgb in Hgb'. apply some_inj in Hgb'. injection Hgb' as <-.
+        destruct (y_binary_int1 o xa' xb' d1 za zb _ _ Hda Hdb Hd1) as (HA & HR & _).
+        assert (Hres : y_binary o xa' xb' d1 = Ok (DBin o xa' xb' (mkd u_int (VC (CInt (int_val o za zb))) false))).
+        { destruct (int_arith o) eqn:Hia; [exact (HA eq_refl)|].
+          assert (Ho : o = BRem \/ o = BQuo) by (destruct o; try discriminate; auto).
+          rewrite (HR Ho), (Hz Ho). reflexivity. }
+        rewrite Hres. cbn [fin].
+        eexists; split; [reflexivity|]. cbn [tinv]. rewrite Hsh. repeat split; [exact Hxa'|exact Hxb'|apply Hgood].
+    + (* strings *)
+      assert (o = BAdd /\ k = UString) as (-> & ->) by (destruct o; try discriminate; injection Hk as <-; auto).
+      destruct (g_bin_str_inv a b iota v Hfa Hfb Hg) as (sa & sb & Hga & Hgb & ->).
+      destruct (IHa UString eq_refl iota (GS sa) Hga false full cx (PSet t) xa Hxa Hfull (pr_ok_set _ _ Ht)) as (xa' & Hya & Hxa').
+      destruct (IHb UString eq_refl iota (GS sb) Hgb false full cx (PSet t) xb Hxb Hfull (pr_ok_set _ _ Ht)) as (xb' & Hyb & Hxb').
+      rewrite Hya, Hyb.
+      destruct (tinv_root UString iota xa' a Hxa') as (va' & Hga' & Hda & _).
+      rewrite Hga in Hga'. apply some_inj in Hga'. injection Hga' as <-.
+      destruct (tinv_root UString iota xb' b Hxb') as (vb' & Hgb' & Hdb & _).
+      rewrite Hgb in Hgb'. apply some_inj in Hgb'. injection Hgb' as <-.
+      assert (Hd1 : dty d1 = None \/ dty d1 = Some u_string) by exact Ht.
+      rewrite (y_binary_str1 xa' xb' d1 sa sb _ _ Hda Hdb Hd1). cbn [fin].
+      eexists; split; [reflexivity|]. cbn [tinv is_shift]. repeat split; [exact Hxa'|exact Hxb'|].
+      apply (good_dinv cnt UString iota (EBin BAdd a b) false (GS (sa ++ sb)) false); [exact Hg|discriminate].
+Qed.
+
+(* ------------------------------------------------------------------ *)
+(** ** one ConstSpec `x = e` *)
+
+Definition sym_of (k : ukind) (v : gval) : sym := {| sy_typ := y_typ_of k; sy_val := Some (y_val_of v) |}.
+
+Lemma y_assignment_same k v r :
+  k = UInt \/ k = UString \/ k = UBool ->
+  y_assignment (mkd (y_typ_of k) (y_val_of v) r) (y_typ_of k) = Ok (mkd (y_typ_of k) (y_val_of v) r).
+Proof. intros [->|[->| ->]]; reflexivity. Qed.
+
+Definition dspec1 (x : N) (src : dx) (dt : option ytyp) : dspec :=
+  {| ds_names := [x]; ds_type := None; ds_srcs := [src]; ds_dest := [dt] |}.
+
+Lemma spec_visit_ok x e k v src dt full env cxi i last :
+  fr1 e = Some k -> g_eval [] i e = Some (GU k, v) -> tinv false full k i src e ->
+  typ_ok k dt -> (full = false -> cxi = i) ->
+  exists src',
+    y_spec_visit env cxi last (dspec1 x src dt)
+    = (dspec1 x src' (Some (y_typ_of k)), Ok (env_set env x (sym_of k v), if last then 0 else cxi + 1))
+    /\ tinv false true k i src' e.
+Proof.
+  intros Hk Hg Hx Hdt Hfull.
+  unfold y_spec_visit, dspec1. cbn [ds_names ds_srcs ds_type ds_dest length Nat.eqb negb y_spec_srcs].
+  assert (Hpr : pr_pos false k (PDest dt)).
+  { destruct Hdt as [->| ->]; unfold pr_pos, pr_ok; auto 6. }
+  destruct (pass_inv e k Hk i v Hg false full {| cx_iota := cxi; cx_env := env; cx_const := true |} (PDest dt) src Hx Hfull Hpr)
+    as (src' & Hy & Hx').
+  rewrite Hy. cbn [y_spec_assign].
+  destruct (tinv_root k i src' e Hx') as (v' & Hg' & Hdeco & _).
+  rewrite Hg in Hg'. apply some_inj in Hg'. injection Hg' as <-.
+  unfold typ_of. rewrite Hdeco. cbn [mkd dty bind].
+  change {| dty := Some (y_typ_of k); dva := Some (y_val_of v); dres := dres (deco_of src') |}
+    with (mkd (y_typ_of k) (y_val_of v) (dres (deco_of src'))).
+  rewrite (y_assignment_same k v _ (fr1_kinds e k Hk)). cbn [bind mkd dva].
+  rewrite <- Hdeco, with_deco_id.
+  exists src'. split; [|exact Hx'].
+  unfold sym_of. reflexivity.
+Qed.
+
+(* ------------------------------------------------------------------ *)
+(** ** groups *)
+
+(** the plan of a group: per spec its name, the expression it evaluates (its own or the repeated
+    one), and kind and value of that expression at the spec's iota *)
+Definition pentry := (N * expr * ukind * gval)%type.
+
+Fixpoint specs_inv (full : bool) (i : Z) (pl : list pentry) (ds : list dspec) : Prop :=
+  match pl, ds with
+  | [], [] => True
+  | (x, e, k, v) :: pl', sp :: ds' =>
+      (exists src dt, sp = dspec1 x src dt /\ fr1 e = Some k /\ g_eval [] i e = Some (GU k, v)
+                      /\ tinv false full k i src e
+                      /\ (if full then dt = Some (y_typ_of k) else typ_ok k dt))
+      /\ specs_inv full (i + 1) pl' ds'
+  | _, _ => False
+  end.
+
+Fixpoint env_after (env : list (N * sym)) (pl : list pentry) : list (N * sym) :=
+  match pl with
+  | [] => env
+  | (x, _, k, v) :: pl' => env_after (env_set env x (sym_of k v)) pl'
+  end.
+
+Lemma specs_inv_weaken i pl : forall ds, specs_inv true i pl ds -> specs_inv false i pl ds.
+Proof.
+  revert i. induction pl as [|[[[x e] k] v] pl IH]; intros i [|sp ds] H; cbn [specs_inv] in *; try contradiction; auto.
+  destruct H as ((src & dt & -> & Hk & Hg & Hx & ->) & Hr). split; [|apply IH; exact Hr].
+  exists src, (Some (y_typ_of k)). repeat split; auto using tinv_weaken. right; reflexivity.
+Qed.
+
+(** cfg walking a group that was (or was not yet) visited *)
+Lemma group_visit_ok pl : forall full i ds env cxi,
+  specs_inv full i pl ds -> (full = false -> pl = [] \/ cxi = i) ->
+  exists ds', y_group_visit env cxi ds = Ok (env_after env pl, (match pl with [] => cxi | _ => 0 end), ds')
+              /\ specs_inv true i pl ds'.
+Proof.
+  induction pl as [|[[[x e] k] v] pl IH]; intros full i [|sp ds] env cxi H Hfull; cbn [specs_inv] in H; try contradiction.
+  - exists []. split; reflexivity.
+  - destruct H as ((src & dt & -> & Hk & Hg & Hx & Hdt) & Hr).
+    assert (Hdt' : typ_ok k dt) by (destruct full; [right; exact Hdt|exact Hdt]).
+    assert (Hfull' : full = false -> cxi = i) by (intros Hf; destruct (Hfull Hf) as [H0|H0]; [discriminate|exact H0]).
+    cbn [y_group_visit].
+    destruct (spec_visit_ok x e k v src dt full env cxi i (is_last ds) Hk Hg Hx Hdt' Hfull') as (src' & Hy & Hx').
+    rewrite Hy. cbn [bind].
+    assert (Hlen : is_last ds = match pl with [] => true | _ => false end).
+    { destruct pl as [|[[[? ?] ?] ?] ?], ds; cbn [specs_inv] in Hr; try contradiction; reflexivity. }
+    destruct (IH full (i + 1) ds (env_set env x (sym_of k v)) (if is_last ds then 0 else cxi + 1) Hr) as (ds' & Hyr & Hr').
+    { intros Hf. rewrite Hlen. destruct pl; [left; reflexivity|right; rewrite (Hfull' Hf); reflexivity]. }
+    rewrite Hyr. cbn [bind env_after].
+    exists (dspec1 x src' (Some (y_typ_of k)) :: ds'). split.
+    + f_equal. f_equal. f_equal. rewrite Hlen. destruct pl; reflexivity.
+    + cbn [specs_inv]. split; [|exact Hr']. exists src', (Some (y_typ_of k)). repeat split; auto.
+Qed.
+
+(** the same walk with its error discarded (gta on the constDecl, pre-order of a local constDecl):
+    no error occurs *)
+Lemma group_try_ok pl : forall full i ds env cxi,
+  specs_inv full i pl ds -> (full = false -> pl = [] \/ cxi = i) ->
+  exists ds', y_group_try env cxi ds = Ok (env_after env pl, (match pl with [] => cxi | _ => 0 end), ds')
+              /\ specs_inv true i pl ds'.
+Proof.
+  induction pl as [|[[[x e] k] v] pl IH]; intros full i [|sp ds] env cxi H Hfull; cbn [specs_inv] in H; try contradiction.
+  - exists []. split; reflexivity.
+  - destruct H as ((src & dt & -> & Hk & Hg & Hx & Hdt) & Hr).
+    assert (Hdt' : typ_ok k dt) by (destruct full; [right; exact Hdt|exact Hdt]).
+    assert (Hfull' : full = false -> cxi = i) by (intros Hf; destruct (Hfull Hf) as [H0|H0]; [discriminate|exact H0]).
+    cbn [y_group_try].
+    destruct (spec_visit_ok x e k v src dt full env cxi i (is_last ds) Hk Hg Hx Hdt' Hfull') as (src' & Hy & Hx').
+    rewrite Hy.
+    assert (Hlen : is_last ds = match pl with [] => true | _ => false end).
+    { destruct pl as [|[[[? ?] ?] ?] ?], ds; cbn [specs_inv] in Hr; try contradiction; reflexivity. }
+    destruct (IH full (i + 1) ds (env_set env x (sym_of k v)) (if is_last ds then 0 else cxi + 1) Hr) as (ds' & Hyr & Hr').
+    { intros Hf. rewrite Hlen. destruct pl; [left; reflexivity|right; rewrite (Hfull' Hf); reflexivity]. }
+    rewrite Hyr. cbn [bind env_after].
+    exists (dspec1 x src' (Some (y_typ_of k)) :: ds'). split.
+    + f_equal. f_equal. f_equal. rewrite Hlen. destruct pl; reflexivity.
+    + cbn [specs_inv]. split; [|exact Hr']. exists src', (Some (y_typ_of k)). repeat split; auto.
+Qed.
+
+Lemma local_pre_ok pl : forall full i ds env cxi,
+  specs_inv full i pl ds -> (full = false -> pl = [] \/ cxi = i) ->
+  exists ds', y_local_pre env cxi ds = Ok (env_after env pl, (match pl with [] => cxi | _ => 0 end), ds')
+              /\ specs_inv true i pl ds'.
+Proof.
+  induction pl as [|[[[x e] k] v] pl IH]; intros full i [|sp ds] env cxi H Hfull; cbn [specs_inv] in H; try contradiction.
+  - exists []. split; reflexivity.
+  - destruct H as ((src & dt & -> & Hk & Hg & Hx & Hdt) & Hr).
+    assert (Hdt' : typ_ok k dt) by (destruct full; [right; exact Hdt|exact Hdt]).
+    assert (Hfull' : full = false -> cxi = i) by (intros Hf; destruct (Hfull Hf) as [H0|H0]; [discriminate|exact H0]).
+    cbn [y_local_pre].
+    destruct (spec_visit_ok x e k v src dt full env cxi i (is_last ds) Hk Hg Hx Hdt' Hfull') as (src' & Hy & Hx').
+    rewrite Hy.
+    assert (Hlen : is_last ds = match pl with [] => true | _ => false end).
+    { destruct pl as [|[[[? ?] ?] ?] ?], ds; cbn [specs_inv] in Hr; try contradiction; reflexivity. }
+    destruct (IH full (i + 1) ds (env_set env x (sym_of k v)) (if is_last ds then 0 else cxi + 1) Hr) as (ds' & Hyr & Hr').
+    { intros Hf. rewrite Hlen. destruct pl; [left; reflexivity|right; rewrite (Hfull' Hf); reflexivity]. }
+    rewrite Hyr. cbn [bind env_after].
+    exists (dspec1 x src' (Some (y_typ_of k)) :: ds'). split.
+    + f_equal. f_equal. f_equal. rewrite Hlen. destruct pl; reflexivity.
+    + cbn [specs_inv]. split; [|exact Hr']. exists src', (Some (y_typ_of k)). repeat split; auto.
+Qed.
+
+(** gta walking the specs of a visited group: every spec is visited again and its symbol replaced *)
+Fixpoint env_after2 (env : list (N * sym)) (pl : list pentry) : list (N * sym) :=
+  match pl with
+  | [] => env
+  | (x, _, k, v) :: pl' => env_after2 (env_set (env_set env x (sym_of k v)) x (sym_of k v)) pl'
+  end.
+
+Lemma group_gta_ok pl : forall i ds env cxi failed,
+  specs_inv true i pl ds ->
+  exists ds' cxi', y_group_gta env cxi failed ds = Ok (env_after2 env pl, cxi', failed, ds')
+              /\ (pl <> [] -> cxi' = 0) /\ (pl = [] -> cxi' = cxi)
+              /\ specs_inv true i pl ds'.
+Proof.
+  induction pl as [|[[[x e] k] v] pl IH]; intros i [|sp ds] env cxi failed H; cbn [specs_inv] in H; try contradiction.
+  - exists [], cxi. repeat split; auto. congruence.
+  - destruct H as ((src & dt & -> & Hk & Hg & Hx & ->) & Hr).
+    cbn [y_group_gta].
+    destruct (spec_visit_ok x e k v src (Some (y_typ_of k)) true env cxi i (is_last ds) Hk Hg Hx (or_intror eq_refl) ltac:(discriminate)) as (src' & Hy & Hx').
+    rewrite Hy. cbn [dspec1 ds_type ds_names ds_srcs gta_syms].
+    destruct (tinv_root k i src' e Hx') as (v' & Hg' & Hdeco & _).
+    rewrite Hg in Hg'. apply some_inj in Hg'. injection Hg' as <-.
+    unfold typ_of. rewrite Hdeco. cbn [mkd dty dva bind length].
+    change {| sy_typ := y_typ_of k; sy_val := Some (y_val_of v) |} with (sym_of k v).
+    destruct (IH (i + 1) ds (env_set (env_set env x (sym_of k v)) x (sym_of k v))
+                 (if is_last ds then 0 else (if is_last ds then 0 else cxi + 1) + Z.of_nat 1) failed Hr) as (ds' & cxi' & Hyr & H1 & H2 & Hr').
+    rewrite Hyr. cbn [bind env_after2].
+    exists (dspec1 x src' (Some (y_typ_of k)) :: ds'), cxi'. repeat split.
+    + intros _. destruct pl as [|p pl].
+      * destruct ds; cbn [specs_inv] in Hr; [|contradiction]. rewrite (H2 eq_refl). reflexivity.
+      * apply H1. discriminate.
+    + discriminate.
+    + exists src', (Some (y_typ_of k)). repeat split; auto.
+    + exact Hr'.
+Qed.
+
+(* ------------------------------------------------------------------ *)
+(** ** environments: only lookups matter *)
+
+Definition env_equiv (e1 e2 : list (N * sym)) : Prop := forall x, alookup x e1 = alookup x e2.
+
+Lemma alookup_env_set env y s x :
+  alookup x (env_set env y s) = if (y =? 0)%N then alookup x env else if (x =? y)%N then Some s else alookup x env.
+Proof. unfold env_set. destruct (y =? 0)%N; reflexivity. Qed.
+
+(** the last binding of x in a plan *)
+Fixpoint plook (x : N) (pl : list pentry) : option sym :=
+  match pl with
+  | [] => None
+  | (y, _, k, v) :: pl' =>
+      match plook x pl' with
+      | Some s => Some s
+      | None => if (y =? 0)%N then None else if (x =? y)%N then Some (sym_of k v) else None
+      end
+  end.
+
+Lemma alookup_env_after pl : forall env x,
+  alookup x (env_after env pl) = match plook x pl with Some s => Some s | None => alookup x env end.
+Proof.
+  induction pl as [|[[[y e] k] v] pl IH]; intros env x; cbn [env_after plook]; [reflexivity|].
+  rewrite IH. destruct (plook x pl); [reflexivity|]. rewrite alookup_env_set.
+  destruct (y =? 0)%N; [reflexivity|]. destruct (x =? y)%N; reflexivity.
+Qed.
+
+Lemma alookup_env_after2 pl : forall env x,
+  alookup x (env_after2 env pl) = match plook x pl with Some s => Some s | None => alookup x env end.
+Proof.
+  induction pl as [|[[[y e] k] v] pl IH]; intros env x; cbn [env_after2 plook]; [reflexivity|].
+  rewrite IH. destruct (plook x pl); [reflexivity|]. rewrite !alookup_env_set.
+  destruct (y =? 0)%N; [reflexivity|]. destruct (x =? y)%N; reflexivity.
+Qed.
+
+Lemma env_after_app env p1 p2 : env_after env (p1 ++ p2) = env_after (env_after env p1) p2.
+Proof. revert env. induction p1 as [|[[[y e] k] v] p1 IH]; intros env; cbn [env_after app]; [reflexivity|apply IH]. Qed.
+
+Lemma plook_app x p1 p2 : plook x (p1 ++ p2) = match plook x p2 with Some s => Some s | None => plook x p1 end.
+Proof.
+  induction p1 as [|[[[y e] k] v] p1 IH]; cbn [plook app]; [destruct (plook x p2); reflexivity|].
+  rewrite IH. destruct (plook x p2); [reflexivity|]. reflexivity.
+Qed.
+
+(** what matters of an environment built by visiting plans: its lookups are those of the plans *)
+Definition env_is (env : list (N * sym)) (pl : list pentry) : Prop := forall x, alookup x env = plook x pl.
+
+Lemma env_is_after env p1 p2 : env_is env p1 -> env_is (env_after env p2) (p1 ++ p2).
+Proof. intros H x. rewrite alookup_env_after, plook_app, H. reflexivity. Qed.
+
+Lemma env_is_after2 env p1 p2 : env_is env p1 -> env_is (env_after2 env p2) (p1 ++ p2).
+Proof. intros H x. rewrite alookup_env_after2, plook_app, H. reflexivity. Qed.
+
+(** visiting again a plan that is already at the end changes no lookup *)
+Lemma env_is_again env p0 p : env_is env (p0 ++ p) -> env_is (env_after env p) (p0 ++ p).
+Proof.
+  intros H x. rewrite alookup_env_after, H, plook_app. destruct (plook x p); reflexivity.
+Qed.
+
+Lemma env_is_again2 env p0 p : env_is env (p0 ++ p) -> env_is (env_after2 env p) (p0 ++ p).
+Proof.
+  intros H x. rewrite alookup_env_after2, H, plook_app. destruct (plook x p); reflexivity.
+Qed.
+
+(* ------------------------------------------------------------------ *)
+(** ** from the syntax of a group to its plan *)
+
+(** name and expression of every spec of a group of single-name untyped specs; a spec without
+    expression repeats the previous one *)
+Fixpoint exprs_of (prev : option expr) (g : group) : option (list (N * expr)) :=
+  match g with
+  | [] => Some []
+  | sp :: g' =>
+      match sp_names sp, sp_type sp, sp_exprs sp with
+      | [x], None, [e] => option_map (cons (x, e)) (exprs_of (Some e) g')
+      | [x], None, [] => match prev with
+                         | Some e => option_map (cons (x, e)) (exprs_of prev g')
+                         | None => None
+                         end
+      | _, _, _ => None
+      end
+  end.
+
+Definition prev_of (p : option expr) : option (option bt * list expr) := option_map (fun e => (None, [e])) p.
+
+Lemma desugar_exprs g : forall prev l, exprs_of prev g = Some l ->
+  desugar (prev_of prev) g = map (fun xe => dspec1 (fst xe) (init (snd xe)) None) l.
+Proof.
+  induction g as [|sp g IH]; intros prev l H; cbn [exprs_of] in H.
+  - injection H as <-. reflexivity.
+  - destruct sp as [names ty es]. cbn [sp_names sp_type sp_exprs] in H.
+    destruct names as [|x [|? ?]]; try discriminate. destruct ty; try discriminate.
+    destruct es as [|e [|? ?]]; try discriminate.
+    + destruct prev as [e|]; [|discriminate].
+      destruct (exprs_of (Some e) g) as [l'|] eqn:El; [|discriminate]. injection H as <-.
+      cbn [desugar sp_exprs sp_names sp_type prev_of option_map last_opt rev app map fst snd].
+      rewrite <- (IH (Some e) l' El). reflexivity.
+    + destruct (exprs_of (Some e) g) as [l'|] eqn:El; [|discriminate]. injection H as <-.
+      cbn [desugar sp_exprs sp_names sp_type map fst snd].
+      rewrite <- (IH (Some e) l' El). reflexivity.
+Qed.
+
+Fixpoint g_plan (env : genv) (i : Z) (l : list (N * expr)) : option genv :=
+  match l with
+  | [] => Some env
+  | (x, e) :: l' =>
+      match g_eval env i e with
+      | None => None
+      | Some c => g_plan (if (x =? 0)%N then env else (x, c) :: env) (i + 1) l'
+      end
+  end.
+
+Lemma g_group_exprs g : forall prev l env i, exprs_of prev g = Some l ->
+  g_group env i (prev_of prev) g = g_plan env i l.
+Proof.
+  induction g as [|sp g IH]; intros prev l env i H; cbn [exprs_of] in H.
+  - injection H as <-. reflexivity.
+  - destruct sp as [names ty es]. cbn [sp_names sp_type sp_exprs] in H.
+    destruct names as [|x [|? ?]]; try discriminate. destruct ty; try discriminate.
+    destruct es as [|e [|? ?]]; try discriminate.
+    + destruct prev as [e|]; [|discriminate].
+      destruct (exprs_of (Some e) g) as [l'|] eqn:El; [|discriminate]. injection H as <-.
+      cbn [g_group sp_exprs sp_names sp_type prev_of option_map g_spec_vals g_plan].
+      destruct (g_eval env i e) as [c|]; [|reflexivity]. cbn [g_define].
+      apply (IH (Some e) l' _ _ El).
+    + destruct (exprs_of (Some e) g) as [l'|] eqn:El; [|discriminate]. injection H as <-.
+      cbn [g_group sp_exprs sp_names sp_type g_spec_vals g_plan].
+      destruct (g_eval env i e) as [c|]; [|reflexivity]. cbn [g_define].
+      apply (IH (Some e) l' _ _ El).
+Qed.
+
+Fixpoint g_after (env : genv) (pl : list pentry) : genv :=
+  match pl with
+  | [] => env
+  | (x, _, k, v) :: pl' => g_after (if (x =? 0)%N then env else (x, (GU k, v)) :: env) pl'
+  end.
+
+Definition in_frag (l : list (N * expr)) : Prop := Forall (fun xe => fr1 (snd xe) <> None) l.
+
+(** G accepts the plan: every expression has a value; this gives the annotated plan *)
+Lemma g_plan_annot l : forall env i env', in_frag l -> g_plan env i l = Some env' ->
+  exists pl, specs_inv false i pl (map (fun xe => dspec1 (fst xe) (init (snd xe)) None) l)
+             /\ env' = g_after env pl.
+Proof.
+  induction l as [|[x e] l IH]; intros env i env' Hf H; cbn [g_plan] in H.
+  - injection H as <-. exists []. split; reflexivity.
+  - inversion Hf as [|? ? Hfe Hfl]; subst. cbn [snd] in Hfe.
+    destruct (fr1 e) as [k|] eqn:Hk; [|congruence].
+    rewrite (g_eval_env e k Hk) in H.
+    destruct (g_eval [] i e) as [[gk v]|] eqn:Hg; [|discriminate].
+    destruct (fr1_eval e k i gk v Hk Hg) as [-> Hwf].
+    destruct (IH _ _ _ Hfl H) as (pl & Hinv & ->).
+    exists ((x, e, k, v) :: pl). split; [|reflexivity].
+    cbn [map fst snd specs_inv]. split; [|exact Hinv].
+    exists (init e), None. repeat split; auto.
+    + apply (tinv_init k i e false k Hk).
+    + left; reflexivity.
+Qed.
+
+(* ------------------------------------------------------------------ *)
+(** ** whole programs *)
+
+Lemma global_gta_ok pls : forall dss env P,
+  Forall2 (specs_inv false 0) pls dss -> env_is env P ->
+  exists env' dss', y_global_gta env 0 false dss = Ok (env', false, dss')
+                    /\ Forall2 (specs_inv true 0) pls dss' /\ env_is env' (P ++ concat pls).
+Proof.
+  induction pls as [|pl pls IH]; intros dss env P H Henv; inversion H as [|? ds ? dss0 Hpl Hrest]; subst.
+  - exists env, []. cbn. rewrite app_nil_r. repeat split; [constructor|exact Henv].
+  - cbn [y_global_gta].
+    destruct (group_try_ok pl false 0 ds env 0 Hpl ltac:(auto)) as (ds1 & Hy1 & H1).
+    rewrite Hy1. cbn [bind].
+    destruct (group_gta_ok pl 0 ds1 (env_after env pl) (match pl with [] => 0 | _ => 0 end) false H1) as (ds2 & cxi' & Hy2 & Hc1 & Hc2 & H2).
+    rewrite Hy2. cbn [bind].
+    assert (Hcx : cxi' = 0) by (destruct pl; [apply Hc2; reflexivity|apply Hc1; discriminate]).
+    subst cxi'.
+    assert (Henv2 : env_is (env_after2 (env_after env pl) pl) (P ++ pl)).
+    { apply env_is_again2. apply env_is_after. exact Henv. }
+    destruct (IH dss0 _ (P ++ pl) Hrest Henv2) as (env' & dss' & Hy3 & H3 & Henv3).
+    rewrite Hy3. cbn [bind].
+    exists env', (ds2 :: dss'). repeat split; [constructor; assumption|].
+    cbn [concat]. rewrite app_assoc. exact Henv3.
+Qed.
+
+Lemma global_cfg_ok pls : forall dss env,
+  Forall2 (specs_inv true 0) pls dss ->
+  exists dss', y_global_cfg env dss = Ok (env_after env (concat pls), dss') /\ Forall2 (specs_inv true 0) pls dss'.
+Proof.
+  induction pls as [|pl pls IH]; intros dss env H; inversion H as [|? ds ? dss0 Hpl Hrest]; subst.
+  - exists []. split; [reflexivity|constructor].
+  - cbn [y_global_cfg].
+    destruct (group_visit_ok pl true 0 ds env 0 Hpl ltac:(discriminate)) as (ds1 & Hy1 & H1).
+    rewrite Hy1. cbn [bind].
+    destruct (IH dss0 (env_after env pl) Hrest) as (dss' & Hy2 & H2).
+    rewrite Hy2. cbn [bind concat]. rewrite env_after_app.
+    exists (ds1 :: dss'). split; [reflexivity|constructor; assumption].
+Qed.
+
+Lemma local_ok pls : forall dss env P,
+  Forall2 (specs_inv false 0) pls dss -> env_is env P ->
+  exists env' dss', y_local env 0 dss = Ok (env', dss')
+                    /\ Forall2 (specs_inv true 0) pls dss' /\ env_is env' (P ++ concat pls).
+Proof.
+  induction pls as [|pl pls IH]; intros dss env P H Henv; inversion H as [|? ds ? dss0 Hpl Hrest]; subst.
+  - exists env, []. cbn. rewrite app_nil_r. repeat split; [constructor|exact Henv].
+  - cbn [y_local].
+    destruct (local_pre_ok pl false 0 ds env 0 Hpl ltac:(auto)) as (ds1 & Hy1 & H1).
+    rewrite Hy1. cbn [bind].
+    destruct (group_visit_ok pl true 0 ds1 (env_after env pl) (match pl with [] => 0 | _ => 0 end) H1 ltac:(discriminate)) as (ds2 & Hy2 & H2).
+    rewrite Hy2. cbn [bind].
+    assert (Hcx : (match pl with [] => match pl with [] => 0 | _ => 0 end | _ => 0 end) = 0) by (destruct pl; reflexivity).
+    rewrite Hcx.
+    assert (Henv2 : env_is (env_after (env_after env pl) pl) (P ++ pl)).
+    { apply env_is_again. apply env_is_after. exact Henv. }
+    destruct (IH dss0 _ (P ++ pl) Hrest Henv2) as (env' & dss' & Hy3 & H3 & Henv3).
+    rewrite Hy3. cbn [bind].
+    exists env', (ds2 :: dss'). repeat split; [constructor; assumption|].
+    cbn [concat]. rewrite app_assoc. exact Henv3.
+Qed.
+
+(** no comparison in the fragment: genRun has nothing to convert *)
+Lemma genrun_ok e : forall k, fr1 e = Some k -> forall x cnt full k' i, tinv cnt full k' i x e -> y_genrun x = Ok tt.
+Proof.
+  induction e as [z|z|q|s0|b0| |n|a IHa|o a IHa|o a IHa b IHb|t0 a IHa|a IHa]; intros k Hk x cnt full k' i Hx;
+    cbn [fr1] in Hk; try discriminate;
+    destruct x as [l d|c d|o' c d|o' xa xb d|t' c d|c d]; try (destruct l); try contradiction; cbn [tinv] in Hx; cbn [y_genrun]; try reflexivity.
+  - destruct Hx as [Hc _]. eapply IHa; eassumption.
+  - destruct Hx as (_ & Hc & _). destruct (fr1 a) as [ka|] eqn:Ha; [|destruct o; discriminate]. eapply IHa; [reflexivity|eassumption].
+  - destruct Hx as (-> & Hxa & Hxb & _).
+    destruct (fr1 a) as [ka|] eqn:Ha; [|discriminate]. destruct (fr1 b) as [kb|] eqn:Hb; [|destruct ka; discriminate].
+    rewrite (IHa ka eq_refl xa _ _ _ _ Hxa), (IHb kb eq_refl xb _ _ _ _ Hxb). cbn [bind].
+    destruct ka, kb; try discriminate; destruct o; try discriminate; reflexivity.
+Qed.
+
+Lemma genrun_list_app a b : y_genrun_list a = Ok tt -> y_genrun_list b = Ok tt -> y_genrun_list (a ++ b) = Ok tt.
+Proof.
+  induction a as [|x a IH]; intros Ha Hb; cbn [app y_genrun_list] in *; [exact Hb|].
+  destruct (y_genrun x) as [[]| | |]; try discriminate. cbn [bind] in *. apply IH; assumption.
+Qed.
+
+Lemma genrun_specs pl : forall i ds, specs_inv true i pl ds -> y_genrun_list (flat_map ds_srcs ds) = Ok tt.
+Proof.
+  induction pl as [|[[[x e] k] v] pl IH]; intros i [|sp ds] H; cbn [specs_inv] in H; try contradiction; [reflexivity|].
+  destruct H as ((src & dt & -> & Hk & _ & Hx & _) & Hr).
+  cbn [flat_map dspec1 ds_srcs app y_genrun_list]. rewrite (genrun_ok e k Hk src _ _ _ _ Hx). cbn [bind].
+  apply (IH _ _ Hr).
+Qed.
+
+Lemma genrun_all pls : forall dss, Forall2 (specs_inv true 0) pls dss -> y_genrun_list (all_srcs dss) = Ok tt.
+Proof.
+  unfold all_srcs. induction pls as [|pl pls IH]; intros dss H; inversion H as [|? ds ? dss0 Hpl Hrest]; subst; [reflexivity|].
+  cbn [flat_map]. apply genrun_list_app; [apply (genrun_specs pl 0 ds Hpl)|apply IH; exact Hrest].
+Qed.
+
+(* ------------------------------------------------------------------ *)
+(** ** printing the declared names *)
+
+Fixpoint kvlook (x : N) (pl : list pentry) : option (ukind * gval) :=
+  match pl with
+  | [] => None
+  | (y, _, k, v) :: pl' =>
+      match kvlook x pl' with
+      | Some c => Some c
+      | None => if (y =? 0)%N then None else if (x =? y)%N then Some (k, v) else None
+      end
+  end.
+
+Lemma plook_kv x pl : plook x pl = option_map (fun kv => sym_of (fst kv) (snd kv)) (kvlook x pl).
+Proof.
+  induction pl as [|[[[y e] k] v] pl IH]; cbn [plook kvlook]; [reflexivity|].
+  rewrite IH. destruct (kvlook x pl); [reflexivity|]. cbn [option_map].
+  destruct (y =? 0)%N; [reflexivity|]. destruct (x =? y)%N; reflexivity.
+Qed.
+
+Lemma alookup_g_after pl : forall env x,
+  alookup x (g_after env pl) = match kvlook x pl with Some kv => Some (GU (fst kv), snd kv) | None => alookup x env end.
+Proof.
+  induction pl as [|[[[y e] k] v] pl IH]; intros env x; cbn [g_after kvlook]; [reflexivity|].
+  rewrite IH. destruct (kvlook x pl); [reflexivity|].
+  destruct (y =? 0)%N; [reflexivity|]. cbn [alookup]. destruct (x =? y)%N; reflexivity.
+Qed.
+
+Definition pl_wf (pl : list pentry) : Prop :=
+  Forall (fun p => match p with (_, _, k, v) => wf_untyped k v /\ use_side k v = true end) pl.
+
+Lemma kvlook_wf x pl k v : pl_wf pl -> kvlook x pl = Some (k, v) -> wf_untyped k v /\ use_side k v = true.
+Proof.
+  induction pl as [|[[[y e] k0] v0] pl IH]; intros Hwf H; cbn [kvlook] in H; [discriminate|].
+  inversion Hwf as [|? ? Hp Hr]; subst.
+  destruct (kvlook x pl) as [c|] eqn:E.
+  - injection H as ->. apply IH; auto.
+  - destruct (y =? 0)%N; [discriminate|]. destruct (x =? y)%N; [|discriminate]. injection H as <- <-. exact Hp.
+Qed.
+
+Lemma specs_inv_wf full pl : forall i ds, specs_inv full i pl ds -> pl_wf pl.
+Proof.
+  induction pl as [|[[[x e] k] v] pl IH]; intros i [|sp ds] H; cbn [specs_inv] in H; try contradiction; [constructor|].
+  destruct H as ((src & dt & _ & Hk & Hg & _) & Hr). constructor; [|eapply IH; exact Hr].
+  destruct (fr1_eval e k i (GU k) v Hk Hg) as [_ Hwf]. split; [exact Hwf|].
+  destruct (fr1_kinds e k Hk) as [->|[->| ->]]; destruct v; try contradiction; reflexivity.
+Qed.
+
+Lemma pl_wf_concat full pls : forall dss, Forall2 (specs_inv full 0) pls dss -> pl_wf (concat pls).
+Proof.
+  induction pls as [|pl pls IH]; intros dss H; inversion H as [|? ds ? dss0 Hpl Hrest]; subst; [constructor|].
+  cbn [concat]. apply Forall_app. split; [eapply specs_inv_wf; exact Hpl|eapply IH; exact Hrest].
+Qed.
+
+Lemma show_agree yenv PL : env_is yenv PL -> pl_wf PL -> forall names,
+  y_show yenv names = match g_show (g_after [] PL) names with Some l => Ok l | None => Err end.
+Proof.
+  intros Henv Hwf. induction names as [|x r IH]; cbn [y_show g_show]; [reflexivity|].
+  rewrite Henv, plook_kv, alookup_g_after. cbn [alookup].
+  destruct (kvlook x PL) as [[k v]|] eqn:E; cbn [option_map fst snd]; [|reflexivity].
+  destruct (kvlook_wf x PL k v Hwf E) as [Hw Hs].
+  unfold sym_of. cbn [sy_typ sy_val]. rewrite (use_agree k v Hw Hs).
+  destruct (g_use (GU k, v)) as [o|]; cbn [bind]; [|reflexivity].
+  rewrite IH. destruct (g_show (g_after [] PL) r); reflexivity.
+Qed.
+
+(* ------------------------------------------------------------------ *)
+(** ** the theorem *)
+
+Definition groups_ok (gs : list group) : Prop :=
+  Forall (fun g => exists l, exprs_of None g = Some l /\ in_frag l) gs.
+
+Lemma g_after_app env p1 p2 : g_after env (p1 ++ p2) = g_after (g_after env p1) p2.
+Proof. revert env. induction p1 as [|[[[y e] k] v] p1 IH]; intros env; cbn [g_after app]; [reflexivity|apply IH]. Qed.
+
+Lemma g_groups_plans gs : forall env env', groups_ok gs -> g_groups env gs = Some env' ->
+  exists pls, Forall2 (specs_inv false 0) pls (map (desugar None) gs) /\ env' = g_after env (concat pls).
+Proof.
+  induction gs as [|g gs IH]; intros env env' Hok H; cbn [g_groups] in H.
+  - injection H as <-. exists []. split; [constructor|reflexivity].
+  - inversion Hok as [|? ? (l & Hl & Hf) Hrest]; subst.
+    pose proof (g_group_exprs g None l env 0 Hl) as Hgg. cbn [prev_of option_map] in Hgg. rewrite Hgg in H.
+    destruct (g_plan env 0 l) as [env1|] eqn:E; [|discriminate].
+    destruct (g_plan_annot l env 0 env1 Hf E) as (pl & Hinv & ->).
+    destruct (IH _ _ Hrest H) as (pls & Hall & ->).
+    exists (pl :: pls). split.
+    + cbn [map]. constructor; [|exact Hall].
+      pose proof (desugar_exprs g None l Hl) as Hdd. cbn [prev_of option_map] in Hdd. rewrite Hdd. exact Hinv.
+    + cbn [concat]. rewrite g_after_app. reflexivity.
+Qed.
+
+(** Constant groups (at package level or in a function) of single-name untyped specs over the
+    rune-free fragment, with iota and implicit repetition: whenever the specification accepts the
+    declarations, yaegi — after its two or three visits of every spec — prints for every shown
+    name the type and value of the specification, or both reject the use. *)
+Theorem const_groups_agree global gs shown :
+  groups_ok gs -> g_groups [] gs <> None ->
+  y_run (PConst global gs shown) = g_run (PConst global gs shown).
+Proof.
+  intros Hok Hacc. unfold y_run, g_run.
+  destruct (g_groups [] gs) as [genv|] eqn:Hg; [|congruence].
+  destruct (g_groups_plans gs [] genv Hok Hg) as (pls & Hall & ->).
+  assert (Hnil : env_is [] []) by (intros x; reflexivity).
+  assert (Hwf : pl_wf (concat pls)) by (eapply pl_wf_concat; exact Hall).
+  destruct global.
+  - unfold y_global.
+    destruct (global_gta_ok pls _ [] [] Hall Hnil) as (env1 & dss1 & Hy1 & H1 & Henv1).
+    rewrite Hy1. cbn [bind].
+    destruct (global_cfg_ok pls dss1 env1 H1) as (dss2 & Hy2 & H2).
+    rewrite Hy2. cbn [bind].
+    rewrite (genrun_all pls dss2 H2). cbn [bind].
+    assert (Henv2 : env_is (env_after env1 (concat pls)) (concat pls)).
+    { apply (env_is_again env1 [] (concat pls)). exact Henv1. }
+    rewrite (show_agree _ _ Henv2 Hwf shown).
+    destruct (g_show (g_after [] (concat pls)) shown); reflexivity.
+  - destruct (local_ok pls _ [] [] Hall Hnil) as (env1 & dss1 & Hy1 & H1 & Henv1).
+    cbn [app] in Henv1. rewrite Hy1. cbn [bind].
+    rewrite (genrun_all pls dss1 H1). cbn [bind].
+    rewrite (show_agree _ _ Henv1 Hwf shown).
+    destruct (g_show (g_after [] (concat pls)) shown); reflexivity.
+Qed.
+
+(** non-vacuity: a block with iota, implicit repetition, a skipped entry and a 200-bit shift *)
+Definition ex_block : list group :=
+  [[ {| sp_names := [1%N]; sp_type := None; sp_exprs := [EBin BShr (EBin BShl (EInt 1) (EBin BMul (EInt 100) (EBin BAdd EIota (EInt 1)))) (EInt 98)] |};
+     {| sp_names := [0%N]; sp_type := None; sp_exprs := [] |};
+     {| sp_names := [2%N]; sp_type := None; sp_exprs := [] |};
+     {| sp_names := [3%N]; sp_type := None; sp_exprs := [EBin BAdd (EStr (s "a")) (EStr (s "b"))] |};
+     {| sp_names := [4%N]; sp_type := None; sp_exprs := [] |} ];
+   [ {| sp_names := [5%N]; sp_type := None; sp_exprs := [EUn UNot (EBool false)] |} ]].
+
+Lemma const_groups_inhabited :
+  groups_ok ex_block /\ g_groups [] ex_block <> None
+  /\ g_run (PConst true ex_block [1%N; 3%N; 4%N; 5%N]) = Printed [(TInt, OI 4); (TString, OS (s "ab")); (TString, OS (s "ab")); (TBool, OB true)]
+  /\ g_run (PConst true ex_block [2%N]) = Rejected.
+Proof.
+  split.
+  - repeat constructor; eexists; (split; [reflexivity|]); repeat constructor; cbn; discriminate.
+  - split; [vm_compute; discriminate|]. split; vm_compute; reflexivity.
+Qed.
